@@ -20,7 +20,7 @@ import time
 
 from .report import VERIF, PY
 
-CROSSHAIR = os.path.join(VERIF, ".venv", "bin", "crosshair")
+CROSSHAIR = "/verif/.venv/bin/crosshair"
 WORK = os.path.join(VERIF, ".work", "xh")
 
 
